@@ -262,21 +262,69 @@ theorem moduleText_asgdef (n : Text.WNet) (d : Text.WDef) (h : d.lib = "SDN_VERI
 
 /-! ### the later modules of the file -/
 
+/-! ### a primitive with attributes and parameters -/
+
+/-- the text of `_write_module` for a primitive with attributes and parameters -/
+def renderLeafX (lf : WLeafX) : String :=
+  "`celldefine\n" ++ starText lf.attrs ++
+    ("module " ++ fixName lf.base.name ++ "\n" ++ mparamsText lf.params ++ "(" ++
+      ",".intercalate ((lf.base.ports.map (fun p => "    " ++ fixName p.name)).map (fun s => "\n" ++ s)) ++ "\n);\n" ++ "\n") ++
+    (String.join (lf.base.ports.map portLine) ++ "\n") ++ "" ++ "endmodule" ++ "\n`endcelldefine" ++ "\n\n"
+
+structure LeafTextX (r : Text.WDef) : Prop where
+  lib : r.lib = "hdi_primitives"
+  params : r.params ≠ some []
+
+def leafTextBX (r : Text.WDef) : Bool :=
+  r.lib == "hdi_primitives" && (match r.params with | some ps => !ps.isEmpty | none => true)
+
+theorem leafTextBX_sound (r : Text.WDef) (h : leafTextBX r = true) : LeafTextX r := by
+  simp only [leafTextBX, Bool.and_eq_true, beq_iff_eq] at h
+  refine ⟨h.1, ?_⟩
+  intro e
+  have := h.2
+  rw [e] at this; simp at this
+
+theorem moduleText_leafX (n : Text.WNet) (r : Text.WDef) (lf : WLeafX) (ht : LeafTextX r) (ha : astLeafXU r = some lf)
+    (hnd : (lf.base.ports.map (·.name)).Nodup) : Text.moduleText n optsBB r = .ok (renderLeafX lf) := by
+  obtain ⟨hU, hat, hpar⟩ := astLeafXU_spec r lf ha
+  unfold astLeafU at hU
+  simp only [Option.map_eq_some_iff] at hU
+  obtain ⟨qs, hqs, e⟩ := hU
+  have hports : lf.base.ports = qs := by rw [← e]
+  have hname : lf.base.name = r.name := by rw [← e]
+  have hhp : r.ports.mapM (Text.headerPortText r) = .ok (qs.map (fun p => "    " ++ fixName p.name)) :=
+    mapM_opt_exc (astLeafPortU r) (Text.headerPortText r) (fun p => "    " ++ fixName p.name)
+      (fun a b h => headerPort_leafU r a b h) r.ports qs hqs
+  have hbp : Text.bodyPortsText r = .ok (String.join (qs.map portLine) ++ "\n") := by
+    rw [bodyPortsText_eq]
+    simp only [bind, Except.bind, bodyPorts_leafU r r.ports qs "" [] hqs (by intro q _ h; cases h) (by rw [← hports]; exact hnd),
+      pure, Except.pure]
+    simp
+  have hl1 : (r.lib == "SDN_VERILOG_ASSIGNMENT") = false := by rw [ht.lib]; decide
+  have hl2 : (r.lib == "hdi_primitives") = true := by rw [ht.lib]; decide
+  unfold Text.moduleText
+  simp only [optsBB, bind, Except.bind, pure, Except.pure, hl1, hl2, Bool.false_eq_true, if_false, Bool.not_true, Bool.and_false,
+    if_true, hhp, hbp]
+  simp only [renderLeafX, starConstraints_getD, List.map_map, hports, hname, hat]
+  rw [← params_text r lf.params hpar ht.params]
+  rfl
+
 inductive WAnyPA
   | work (m : WModPA)
-  | leaf (lf : WLeaf)
+  | leaf (lf : WLeafX)
 
 def WAnyPA.toAny : WAnyPA → WAnyA
   | .work m => .work m.toA
-  | .leaf lf => .leaf (inoutify lf)
+  | .leaf lf => .leaf (inoutifyX lf)
 
 def astAnyPA (n : Text.WNet) (r : Text.WDef) : Option WAnyPA :=
-  if r.lib == "hdi_primitives" then (astLeafU r).map WAnyPA.leaf else (astOfA n r).map WAnyPA.work
+  if r.lib == "hdi_primitives" then (astLeafXU r).map WAnyPA.leaf else (astOfA n r).map WAnyPA.work
 
 theorem astAnyA_of_P (n : Text.WNet) (r : Text.WDef) : astAnyA n r = (astAnyPA n r).map WAnyPA.toAny := by
   unfold astAnyA astAnyPA
   split
-  · cases astLeafU r <;> rfl
+  · cases astLeafXU r <;> rfl
   · cases astOfA n r <;> rfl
 
 theorem mapM_astAnyA (n : Text.WNet) : ∀ (Rs : List Text.WDef) (Ps : List WAnyPA), Rs.mapM (astAnyPA n) = some Ps →
@@ -300,13 +348,13 @@ theorem mapM_astAnyA (n : Text.WNet) : ∀ (Rs : List Text.WDef) (Ps : List WAny
 
 def renderAnyA : WAnyPA → String
   | .work m => renderModA m
-  | .leaf lf => renderLeaf lf
+  | .leaf lf => renderLeafX lf
 
 /-- the text-side clauses for a definition written after the top (decidable) -/
 def anyTextBA (n : Text.WNet) (r : Text.WDef) : Bool :=
   match astAnyPA n r with
   | some (.work _) => fragTop n r && topTextBA n r
-  | some (.leaf lf) => leafTextB r && decide ((lf.ports.map (·.name)).Nodup)
+  | some (.leaf lf) => leafTextBX r && decide ((lf.base.ports.map (·.name)).Nodup)
   | none => false
 
 theorem any_textA (n : Text.WNet) (r : Text.WDef) (P : WAnyPA) (ha : astAnyPA n r = some P) (ht : anyTextBA n r = true) :
@@ -319,7 +367,7 @@ theorem any_textA (n : Text.WNet) (r : Text.WDef) (P : WAnyPA) (ha : astAnyPA n 
     obtain ⟨lf, hlf, e⟩ := ha
     subst e
     simp only [Bool.and_eq_true, decide_eq_true_eq] at ht
-    exact moduleText_leafU n r lf (leafTextB_sound r ht.1) hlf ht.2
+    exact moduleText_leafX n r lf (leafTextBX_sound r ht.1) hlf ht.2
   · simp only [Option.map_eq_some_iff] at ha
     obtain ⟨m, hm, e⟩ := ha
     subst e
